@@ -1232,9 +1232,53 @@ func (s *Session) LoadPackages(pkg *PackageData) (*sources.Sources, error) {
 	return srcs, nil
 }
 
+// sourcesOf returns the sources of the given package and of every package it
+// depends on, sorted by import path.
+func (s *Session) sourcesOf(rootSrcs *sources.Sources) ([]*sources.Sources, error) {
+	seen := map[*sources.Sources]bool{}
+	list := []*sources.Sources{}
+	var visit func(srcs *sources.Sources) error
+	visit = func(srcs *sources.Sources) error {
+		if seen[srcs] {
+			return nil
+		}
+		seen[srcs] = true
+		list = append(list, srcs)
+		for _, path := range srcs.UnresolvedImports(`C`, `unsafe`) {
+			imported, err := s.SourcesForImport(path, srcs.Dir)
+			if err != nil {
+				return err
+			}
+			if err := visit(imported); err != nil {
+				return err
+			}
+		}
+		return nil
+	}
+	if err := visit(rootSrcs); err != nil {
+		return nil, err
+	}
+	// The runtime is a part of every program.
+	if runtimeSrcs, ok := s.sources[`runtime`]; ok {
+		if err := visit(runtimeSrcs); err != nil {
+			return nil, err
+		}
+	}
+	sources.SortedSourcesSlice(list)
+	return list, nil
+}
+
 func (s *Session) prepareAndCompilePackages(rootSrcs *sources.Sources) (*compiler.Archive, error) {
 	tContext := types.NewContext()
-	allSources := s.GetSortedSources()
+
+	// Generic instances and their numbering belong to one program: prepare only
+	// the packages this program consists of, not those of other programs built
+	// earlier in the session, and don't reuse archives compiled for them.
+	allSources, err := s.sourcesOf(rootSrcs)
+	if err != nil {
+		return nil, err
+	}
+	s.UpToDateArchives = map[string]*compiler.Archive{}
 
 	// Prepare and analyze the source code.
 	// This will be performed recursively for all dependencies.
